@@ -65,6 +65,9 @@ func checkC05(c *Ctx, r *Report) {
 	serialWidth(c, r, "C05.R6.print-width")
 	tokenGrowth(c, r, "C05.R3.token-growth")
 	tablesMirrored(c, r, "C05.R2.tables-mirrored")
+	floatRounding(c, r, "C05.R6.float-rounding")
+	parseAcceptsWholeField(c, r, "C05.R6.whole-field")
+	chunksCoverString(c, r, "C05.R1.chunks-cover")
 }
 
 // c05R5: numeric limit agreement: the TTL parser accepts exactly the range the 32-bit header field (and its printer) has.
